@@ -1,17 +1,27 @@
-/* C09 O-1: parse_data_string as a whole under its totality contract (loop contract injected by the extractor). */
+/* C09 O-1: parse_data_string as a whole under its totality contract.  The loop body is the step function pds_step, bound by its
+ * contract (contracts/C09_step.h, proved by the parse_data_string.step groups on the same extracted text); the loop carries
+ * the loop contract injected by the extractor. */
 #include "contracts/C03_leaf.h"
 #include "x_Encoding_leaf.c"
 #include "x_c09_prelude.c"
+#include "contracts/C09_step.h"
 #include "contracts/C09_parse.h"
-int verif_exc; size_t g_vk, g_k, g_w; bool g_quoted, g_returned;
-const char* g_end; unsigned g_st_calls; const char* g_st_arg; const char* g_st_end; int g_st_base; int g_st_kind;
+int verif_exc; size_t g_vk, g_k, g_w, g_j, g_n; bool g_quoted, g_returned; 
+const char* g_end; char g_c0, g_c1, g_c2, g_c3;
+unsigned g_st_calls; const char* g_st_arg; const char* g_st_end; int g_st_base; int g_st_kind;
 unsigned long long g_num; double g_dbl; float g_flt; unsigned g_load_calls;
-#include "x_pds_full.c"
+/* the parser state (locals of parse_data_string that live across iterations) */
+const char* in; uint8_t chr;
+bool reading_string, reading_unicode_string, reading_comment, reading_multiline_comment, reading_high_nybble, reading_filename;
+bool big_endian, mask_enabled, allow_files;
+OUT_STR* data; OUT_STR* mask; vstr filename;
+#include "x_pds_step.c"
+#include "x_pds_skeleton.c"
 
 void h_parse(void)
 {
-  vstr* data; const char* s; vstr* mask; size_t in_size; uint64_t in_flags; size_t in_vk;
+  OUT_STR* d; const char* s; OUT_STR* m; size_t in_size; uint64_t in_flags; size_t in_vk;
   g_vk = in_vk;
-  parse_data_string(data, s, in_size, mask, in_flags);
+  parse_data_string(d, s, in_size, m, in_flags);
   VERIF_REACH();
 }
